@@ -5,7 +5,10 @@
 SEED=$(readlink -f "$1"); shift
 MUT=${MUT:-/tmp/mut}
 [ -d $MUT ] || git -C /repo worktree add -q --detach $MUT HEAD
-cd $MUT && git checkout -q --detach ${BASE:-main} && git checkout -q -- . && git clean -fdq
+# the change is applied to the CURRENT /repo head when it still applies there (so that defects repaired since the seed
+# was written do not show up as catches), otherwise to the commit it was written against (BASE)
+cd $MUT && git checkout -q -- . && git clean -fdq && git checkout -q --detach main
+if ! git apply --check $SEED/patch.diff 2>/dev/null; then git checkout -q --detach ${BASE:-main}; echo "base: ${BASE:-main} (does not apply to main)"; else echo "base: main"; fi
 mkdir -p $MUT/_seed/x && cp $SEED/demo.py $MUT/_seed/x/demo.py
 /venv/bin/python _seed/x/demo.py >/dev/null 2>&1; echo "demo pristine exit=$? (want 0)"
 git apply $SEED/patch.diff || { echo "PATCH DOES NOT APPLY"; exit 3; }
